@@ -26,6 +26,7 @@ fn strings_over(alpha: &[char], maxlen: usize) -> Vec<String> {
 }
 
 pub fn c17(g: &mut G) {
+    g.emit("!scale levlong".into());
     let klen = if g.thorough { 4 } else { 3 };
     let qlen = if g.thorough { 3 } else { 2 };
     let mut keys: Vec<Vec<u8>> = strings_over(&LEV_ALPHABET, klen).into_iter().map(|s| s.into_bytes()).collect();
@@ -149,6 +150,7 @@ pub fn composed_auts(g: &mut G, depth: usize, count: usize) -> Vec<AutSpec> {
 }
 
 pub fn c18(g: &mut G) {
+    g.emit("!scale patlong".into());
     let mut specs: Vec<AutSpec> = vec![];
     // every leaf, every unary and a sample of binary compositions, then random depth 3
     let pats: Vec<Vec<u8>> = universe(b"ab", 2);
@@ -224,6 +226,7 @@ pub fn c18(g: &mut G) {
 }
 
 pub fn c19(g: &mut G) {
+    g.emit("!scale mergebig".into());
     let keyu: Vec<&str> = vec!["a", "b", "ab", "abc", "k1", "k2", "zz", "m"];
     let modes = ["sum", "max", "min", "set"];
     let n = if g.thorough { 1500 } else { 220 };
@@ -337,6 +340,7 @@ pub fn c19(g: &mut G) {
 }
 
 pub fn c20(g: &mut G) {
+    g.emit("!scale sizes".into());
     // boundary grid of header / footer fields for lengths 0..64
     let versions: [u64; 8] = [0, 1, 2, 3, 4, 255, 1 << 32, u64::MAX];
     for len in 0..=64usize {
